@@ -29,6 +29,9 @@ type Producer struct {
 	FailAfter int  `json:"fail_after,omitempty"`
 	// FailOnCall: 0 = fail on every invocation; n > 0 = fail only on the n-th invocation.
 	FailOnCall int `json:"fail_on_call,omitempty"`
+	// WhenArmed: the fault is active only while Built.Armed is true (the harness arms it around
+	// exactly one render).
+	WhenArmed bool `json:"when_armed,omitempty"`
 }
 
 // PartSpec describes a body part or alternative.
@@ -123,6 +126,8 @@ type Built struct {
 	Leaves []Leaf
 	// Calls counts producer invocations per leaf index (for fault arming by invocation).
 	Calls []*int
+	// Armed switches producers with WhenArmed on and off.
+	Armed *bool
 }
 
 // Env holds per-process resources for builders.
@@ -144,10 +149,13 @@ func NewEnv() (*Env, error) {
 func (e *Env) Close() { _ = os.RemoveAll(e.Dir) }
 
 // producerFunc builds the write function for content with the given producer behaviour.
-func producerFunc(content []byte, p Producer, calls *int) func(io.Writer) (int64, error) {
+func producerFunc(content []byte, p Producer, calls *int, armed *bool) func(io.Writer) (int64, error) {
 	return func(w io.Writer) (int64, error) {
 		*calls++
 		failing := p.Fail && (p.FailOnCall == 0 || p.FailOnCall == *calls)
+		if p.WhenArmed {
+			failing = p.Fail && *armed
+		}
 		limit := len(content)
 		if failing && p.FailAfter < limit {
 			limit = p.FailAfter
@@ -207,7 +215,7 @@ func Build(spec *MsgSpec, env *Env) (*Built, error) {
 		opts = append(opts, mail.WithNoDefaultUserAgent())
 	}
 	m := mail.NewMsg(opts...)
-	b := &Built{Msg: m}
+	b := &Built{Msg: m, Armed: new(bool)}
 	msgEnc := spec.Encoding
 	if msgEnc == "" {
 		msgEnc = "quoted-printable"
@@ -281,7 +289,7 @@ func Build(spec *MsgSpec, env *Env) (*Built, error) {
 		var err error
 		switch via {
 		case "writer":
-			wf := producerFunc(p.Content, p.Prod, calls)
+			wf := producerFunc(p.Content, p.Prod, calls, b.Armed)
 			if i == 0 {
 				m.SetBodyWriter(ct, wf, popts...)
 			} else {
@@ -346,7 +354,7 @@ func Build(spec *MsgSpec, env *Env) (*Built, error) {
 		var err error
 		switch src {
 		case "writer":
-			wf := producerFunc(f.Content, f.Prod, calls)
+			wf := producerFunc(f.Content, f.Prod, calls, b.Armed)
 			fopts = append(fopts, func(fl *mail.File) { fl.Writer = wf })
 			if embed {
 				err = m.EmbedReader(f.Name, bytes.NewReader(nil), fopts...)
